@@ -737,6 +737,9 @@ qb_vsnprintf_deserialize(char *string, size_t str_len, const char *buf)
 		}
 		/* copy from current to the next % */
 		len = p - format;
+		if (len > str_len - 1 - location) {
+			len = str_len - 1 - location;
+		}
 		memcpy(&string[location], format, len);
 		location += len;
 		format = p;
@@ -922,11 +925,19 @@ reprocess:
 			break;
 			}
 		case '%':
-			string[location++] = '%';
+			if (location < str_len - 1) {
+				string[location++] = '%';
+			}
 			format++;
 			break;
 
 		}
+		/* snprintf() returns the length it would have written, keep
+		 * location inside the buffer and the string terminated */
+		if (location >= str_len) {
+			location = str_len - 1;
+		}
+		string[location] = '\0';
 	}
 	return location;
 }
